@@ -1068,7 +1068,8 @@ func mcastGenPeers(r *rng, maxops int, w *bufio.Writer) {
 		case 4:
 			setter(peers())
 		case 5:
-			setter(send[0])
+			// a sending peer (the raw sender and packet connections have no setters: the harness skips those)
+			setter(send[r.pick(0, 0, r.intn(len(send)))])
 		case 6:
 			// failing system calls: the descriptor number refers to /dev/null for a while
 			s := peers()
